@@ -438,4 +438,27 @@ def fnDistinctKeys3 : Stmt → Bool
   | .functionDef i _ args body _ _ _ => nodupB (sk i :: (tnodes (args.kidLams ++ [args.id]) ++ keysL3 body))
   | _ => false
 
+mutual
+/-- Shape conditions that hold of every parsed Python program but not of every value of the syntax tree type: a `for`
+carries no extra loop test (an annotation only later transformations add), a `with` has an item, a `try` body and a
+`finally` block start with a statement that creates a CFG node (nested function/class bodies are not inspected: they have
+their own graphs). -/
+def stmtShape : Stmt → Bool
+  | .for_ _ _ _ body orelse extra _ => extra.isEmpty && shapeL body && shapeL orelse
+  | .while_ _ _ body orelse => shapeL body && shapeL orelse
+  | .if_ _ _ body orelse => shapeL body && shapeL orelse
+  | .with_ _ items body _ => !items.isEmpty && shapeL body
+  | .try_ _ body handlers orelse final =>
+      blockEmits body && (final.isEmpty || blockEmits final) && shapeL body && shapeL handlers && shapeL orelse && shapeL final
+  | .handler _ _ _ body => shapeL body
+  | _ => true
+def shapeL : List Stmt → Bool
+  | [] => true
+  | s :: ss => stmtShape s && shapeL ss
+end
+
+def fnParsedShape : Stmt → Bool
+  | .functionDef _ _ _ body _ _ _ => shapeL body
+  | _ => false
+
 end Malt.Cfg
